@@ -259,15 +259,41 @@ func strStep(g *randz.StrGenerator, src *scripted, t []string) (out string) {
 				out = "exhausted"
 				return
 			}
-			panic(r)
+			out = "panicked" // Generate(n<0): buf.Grow panics; the generator must stay usable (after-failure class)
 		}
 	}()
 	s := g.Generate(n)
 	return fmt.Sprintf("%s %d", hx([]byte(s)), src.used)
 }
 
+func showRules(cg *randz.CountGenerator) string {
+	rs := reflect.ValueOf(cg).Elem().FieldByName("rules")
+	var parts []string
+	for i := 0; i < rs.Len(); i++ {
+		e := rs.Index(i)
+		parts = append(parts, fmt.Sprintf("%d,%d,%d,%d", field(e, "period"), field(e, "periodEndMaxIncr"),
+			field(e, "interval"), field(e, "intervalMaxIncr")))
+	}
+	return "ok " + strings.Join(parts, ";")
+}
+
 func countStep(cg *randz.CountGenerator, t []string) string {
 	switch {
+	case len(t) == 2 && t[0] == "addrule": // AddRule at any point, also after the first Generate
+		p := strings.Split(t[1], ",")
+		if len(p) != 4 {
+			return "bad-op"
+		}
+		var q [4]int
+		for i := range p {
+			v, err := strconv.Atoi(p[i])
+			if err != nil {
+				return "bad-op"
+			}
+			q[i] = v
+		}
+		cg.AddRule(q[0], q[1], q[2], q[3])
+		return showRules(cg)
 	case len(t) == 3 && t[0] == "gen":
 		id, ok := unhx(t[1])
 		d, err := strconv.Atoi(t[2])
@@ -476,7 +502,7 @@ func checkStr(c core.Case, out []string, hdr []string) *core.Failure {
 		if n < 0 {
 			continue // outside the property (n >= 0)
 		}
-		if o == "panic" {
+		if o == "panic" || o == "panicked" {
 			return &core.Failure{Key: "strgen-panic", Desc: fmt.Sprintf("Generate(%d) over %q panicked", n, set)}
 		}
 		if o == "exhausted" {
@@ -526,14 +552,36 @@ func countPositive(hdr []string) bool {
 }
 
 func checkCount(c core.Case, out []string, hdr []string) *core.Failure {
-	if !countPositive(hdr) {
+	allRules := append([]string{}, hdr...)
+	for _, l := range c.Lines[1:] {
+		if t := core.Toks(l); len(t) == 2 && t[0] == "addrule" {
+			allRules = append(allRules, t[1])
+		}
+	}
+	if !countPositive(allRules) {
 		return nil // the property is about rule sets with positive parameters
 	}
+	// the statements are about ONE rule set: every AddRule starts a new epoch
+	lo := 0
+	for i := 1; i <= len(c.Lines); i++ {
+		if i == len(c.Lines) || core.Toks(c.Lines[i])[0] == "addrule" {
+			if f := checkCountEpoch(c, out, hdr, lo, i); f != nil {
+				return f
+			}
+			lo = i
+		}
+	}
+	return nil
+}
+
+// checkCountEpoch judges the lines [lo, hi) (one rule set): Generate is a function of
+// (id, diff), non-decreasing in diff, between Min and Max.
+func checkCountEpoch(c core.Case, out []string, hdr []string, lo, hi int) *core.Failure {
 	type pt struct{ d, v int }
 	gens := map[string][]pt{}
 	mins := map[int]int{}
 	maxs := map[int]int{}
-	for i := 0; i < len(c.Lines); i++ {
+	for i := lo; i < hi; i++ {
 		if out[i] == "panic" {
 			key := "count-panic"
 			for _, r := range hdr[3:] {
@@ -551,7 +599,7 @@ func checkCount(c core.Case, out []string, hdr []string) *core.Failure {
 		}
 		t := core.Toks(c.Lines[i])
 		v, err := strconv.Atoi(out[i])
-		if err != nil || len(t) < 2 {
+		if err != nil || len(t) < 2 || t[0] == "addrule" {
 			continue
 		}
 		d, _ := strconv.Atoi(t[len(t)-1])
@@ -565,8 +613,11 @@ func checkCount(c core.Case, out []string, hdr []string) *core.Failure {
 		}
 	}
 	for id, ps := range gens {
-		sort.Slice(ps, func(i, j int) bool { return ps[i].d < ps[j].d })
+		sort.SliceStable(ps, func(i, j int) bool { return ps[i].d < ps[j].d })
 		for k := range ps {
+			if k > 0 && ps[k].d == ps[k-1].d && ps[k].v != ps[k-1].v {
+				return &core.Failure{Key: "count-not-a-function", Desc: fmt.Sprintf("rules %v (+ AddRule lines before line %d) id %s: Generate(%d) answered %d and later %d with the same rule set", hdr[3:], hi, id, ps[k].d, ps[k-1].v, ps[k].v)}
+			}
 			if k > 0 && ps[k].v < ps[k-1].v {
 				return &core.Failure{Key: "count-not-monotone", Desc: fmt.Sprintf("rules %v id %s: Generate(%d) = %d > Generate(%d) = %d", hdr[3:], id, ps[k-1].d, ps[k-1].v, ps[k].d, ps[k].v)}
 			}
@@ -667,8 +718,11 @@ func classify(c core.Case, out []string) []string {
 			t := core.Toks(l)
 			o := out[i+1]
 			switch {
-			case o == "panic":
+			case o == "panic" || o == "panicked":
 				ls = append(ls, "str-negative-n-panic")
+				if i+2 < len(out) && out[i+2] != "dead" {
+					ls = append(ls, "str-used-after-panic")
+				}
 			case o == "exhausted":
 				ls = append(ls, "str-exhausted")
 			case len(t) >= 2:
@@ -700,6 +754,17 @@ func classify(c core.Case, out []string) []string {
 	case "count", "countraw":
 		if hdr[2] == "countraw" {
 			ls = append(ls, "count-raw-order")
+		}
+		seenGen := false
+		for _, l := range c.Lines[1:] {
+			t := core.Toks(l)
+			if t[0] == "gen" {
+				seenGen = true
+			}
+			if t[0] == "addrule" && seenGen {
+				ls = append(ls, "count-addrule-after-generate")
+				break
+			}
 		}
 		var periods []int
 		for _, r := range hdr[3:] {
